@@ -73,8 +73,27 @@ Ltac ext_go :=
     | (apply ext_bind; [|intros ?])
     | apply ext_refl ].
 
+Lemma assign0_rk1 prop mk tmp r t : ext (assign0 (rk1 cfg) prop mk tmp r t) (assign0 cfg prop mk tmp r t).
+Proof.
+  unfold assign0. apply ext_bind; [apply ext_refl|]. intros ar. apply ext_bind; [apply ext_refl|]. intros at_.
+  change (alloc_eq (rk1 cfg) (a_alloc ar) (a_alloc at_)) with (alloc_eq cfg (a_alloc ar) (a_alloc at_)).
+  ext_go.
+Qed.
+
+Ltac ext_go0 :=
+  repeat first
+    [ apply assign0_rk1 | apply p_build_rk1 | apply assign_all_rk1 | apply assign_loop_rk1 | apply p_dtor_rk1 | apply swap_cells_rk1
+    | match goal with |- ext (if ?c then _ else _) (if ?c then _ else _) => destruct c end
+    | match goal with |- ext (match ?p with PNull => _ | PBlk _ => _ end) _ => destruct p end
+    | (apply ext_bind; [|intros ?])
+    | apply ext_refl ].
+
 Lemma step0_rk1 o : ext (step0 (rk1 cfg) o) (step0 cfg o).
-Proof. destruct o; cbn [step0]; cbv zeta; ext_go. Qed.
+Proof.
+  destruct o; cbn [step0]; cbv zeta;
+    change (c_pocs (rk1 cfg)) with (c_pocs cfg); change (c_pocca (rk1 cfg)) with (c_pocca cfg);
+    change (c_pocma (rk1 cfg)) with (c_pocma cfg); ext_go0.
+Qed.
 
 Lemma unwind_rk1 : ext (unwind (rk1 cfg)) (unwind cfg).
 Proof. intros s. reflexivity. Qed.
